@@ -1007,3 +1007,59 @@ func harnessC05killAfter() {
 	vAssert(left == "", "C05: nothing created for the failed start is left behind")
 	vDone()
 }
+
+// ---------------------------------------------------------------------------------------------- C11: synced stdio, composed
+type wRecWriter struct{ chunks []string }
+
+func (w *wRecWriter) Write(p []byte) (int, error) {
+	w.chunks = append(w.chunks, string(p))
+	return len(p), nil
+}
+
+// The plugin writes to its process stdout and stderr after serving began - partly before the host has attached - and the
+// host's sync writers must receive exactly that, per stream, in order, nothing crossed. Chunks are arbitrary contents of
+// symbolic length (<= 1 KiB so that one write is one chunk on the gRPC path).
+func harnessC11world() {
+	var o wOpts
+	o.grpc = vChoice(2) == 1
+	if o.grpc {
+		o.mux = vChoice(2) == 1
+	}
+	o.allowed = 1
+	o.cmd = vChoice(2) == 1
+	w := wSetup(o)
+	out, errw := &wRecWriter{}, &wRecWriter{}
+	w.c.config.SyncStdout, w.c.config.SyncStderr = out, errw
+	o1, o2, e1 := vNondetStr("o1", ""), vNondetStr("o2", ""), vNondetStr("e1", "")
+	vAssume(len(o1) >= 1 && len(o1) <= 1024 && len(o2) >= 1 && len(o2) <= 1024 && len(e1) >= 1 && len(e1) <= 1024)
+	_, err := w.c.Start()
+	vAssume(err == nil)
+	early := vChoice(2) == 1
+	write := func(toErr bool, s string) {
+		done := make(chan struct{})
+		go func() { vSetProc(w.p.id); wPluginWrite(toErr, s); close(done) }()
+		<-done
+	}
+	if early {
+		vCover("written-before-attach")
+		write(false, o1)
+		write(true, e1)
+	}
+	cp, err := w.c.Client()
+	vAssume(err == nil)
+	_ = cp
+	if !early {
+		write(false, o1)
+		write(true, e1)
+	}
+	write(false, o2)
+	vSleepUntil(vNow() + 2*sec)
+	vRecord("n-out", len(out.chunks))
+	vRecord("n-err", len(errw.chunks))
+	vAssert(len(out.chunks) == 2, "C11: the host's SyncStdout receives what the plugin wrote to its stdout (two chunks)")
+	vAssert(out.chunks[0] == o1 && out.chunks[1] == o2, "C11: the host's SyncStdout receives exactly what the plugin wrote to its stdout, in order")
+	vAssert(len(errw.chunks) == 1 && errw.chunks[0] == e1, "C11: the host's SyncStderr receives exactly what the plugin wrote to its stderr")
+	vCover("delivered")
+	w.c.Kill()
+	vDone()
+}
